@@ -1898,7 +1898,7 @@ fn exec_conc(case: &Case) -> Exec {
                 ex.tag(format!("judge:{}", w.get(1).copied().unwrap_or("?")));
                 let v = judge(&w[1..]).0;
                 if v != "accept" {
-                    ex.tag("judge:rejected");
+                    ex.tag("judge-verdict:not-accept");
                 }
                 ex.nontrivial = true;
                 ex.out.push(v);
